@@ -233,7 +233,7 @@ Section RoundTrip.
     cbn [Unquote.unq_loop].
     replace (q_char Q =? ch_cr) with false by (unfold ch_cr, ch_dq, ch_sq in *; lia).
     replace (q_char Q =? ch_nl) with false by (unfold ch_nl, ch_dq, ch_sq in *; lia).
-    rewrite UC by (unfold ch_dq, ch_sq in *; lia).
+    unfold unq_first. rewrite UC by (unfold ch_dq, ch_sq in *; lia).
     destruct st; reflexivity.
   Qed.
 
@@ -282,7 +282,7 @@ Section RoundTrip.
       replace (q =? ch_cr) with false by (unfold ch_cr, ch_dq, ch_sq in *; lia).
       replace (q =? ch_nl) with false by (unfold ch_nl, ch_dq, ch_sq in *; lia).
       pose proof (uc_closing wrap (qi_for f false 0)) as UC. cbn [qi_for q_char q_numchar q_numhash repeat hashes app] in UC.
-      fold q in UC. rewrite UC by (unfold ch_dq, ch_sq in *; lia).
+      fold q in UC. unfold unq_first. rewrite UC by (unfold ch_dq, ch_sq in *; lia).
       cbn. now rewrite rev_involutive. }
     unfold qi_unquote.
     destruct (body ++ [q]) as [|x l] eqn:Ebq; [destruct body; discriminate|].
@@ -304,7 +304,7 @@ Section RoundTrip.
       replace (q =? ch_cr) with false in HS by (unfold ch_cr, ch_dq, ch_sq in *; lia).
       replace (q =? ch_nl) with false in HS by (unfold ch_nl, ch_dq, ch_sq in *; lia).
       pose proof (uc_closing wrap Q) as UC. cbn [Q q_char q_numchar q_numhash repeat hashes app] in UC.
-      rewrite UC in HS by (unfold ch_dq, ch_sq in *; lia).
+      unfold unq_first in HS. rewrite UC in HS by (unfold ch_dq, ch_sq in *; lia).
       cbn in HS. rewrite rev_involutive in HS. exact HS.
     - cbn [q_multi andb]. apply Hslow. lia.
   Qed.
@@ -334,7 +334,7 @@ Section RoundTrip.
     replace (f_quote f =? ch_nl) with false by (unfold ch_nl, ch_dq, ch_sq in *; lia).
     pose proof (uc_closing wrap (qi_for f true hc)) as UC.
     cbn [qi_for q_char q_numchar q_numhash repeat app] in UC.
-    rewrite UC by (unfold ch_dq, ch_sq in *; lia).
+    unfold unq_first. rewrite UC by (unfold ch_dq, ch_sq in *; lia).
     reflexivity.
   Qed.
 
